@@ -482,7 +482,7 @@ func regoC07(c *checkCtx) {
 		progs = append(progs, regosym.Program{Name: n, Validations: []regosym.Validation{
 			{Name: vn, Level: "violation", Class: 0, F: regosym.And{Fs: []regosym.Formula{regosym.Atom{Path: regosym.P(1), Kind: "minCount", N: 1}}}}}})
 	}
-	c.evidence["bounds_regosym"] = map[string]any{"programs": len(progs), "families": "a lone control character or DEL in profile name / validation name / message / set value (8 characters x 4 places); profile and validation names with quotes, backslashes, percent signs, braces, letters and digits outside ASCII, keywords; atoms, quantified, nested atoms, atom paths, skeletons of depth 2, variable indices up to 26, rewrite base profiles, messages with repeated / several placeholders; every program with a path sequence also with the sequence written over several lines"}
+	c.evidence["bounds_regosym"] = map[string]any{"programs": len(progs), "families": "set constraints with 130 and 400 values in 9 alignments, 40 validations with names and messages of up to 800 bytes; a lone control character or DEL in profile name / validation name / message / set value (8 characters x 4 places); profile and validation names with quotes, backslashes, percent signs, braces, letters and digits outside ASCII, keywords; atoms, quantified, nested atoms, atom paths, skeletons of depth 2, variable indices up to 26, rewrite base profiles, messages with repeated / several placeholders; every program with a path sequence also with the sequence written over several lines"}
 	drv, err := regosym.BuildDriver(repoDir, verifDir(), regoWork(c))
 	if err != nil {
 		c.inconclusive("regosym: " + err.Error())
@@ -532,6 +532,35 @@ func regoC07(c *checkCtx) {
 			texts = append(texts, fmt.Sprintf("#%%Validation Profile 1.0\nprofile: \"%s\"\nprefixes:\n  ex: http://example.org/\nviolation:\n  - \"%s\"\nvalidations:\n  \"%s\":\n    message: \"%s\"\n    targetClass: ex.C\n    propertyConstraints:\n      ex.p:\n        in: [ \"%s\", \"B\" ]\n", pn, vn, vn, msg, val))
 			descs = append(descs, "hand-written: "+place+" AB"+ctl+"CD")
 		}
+	}
+	// long lists: a set constraint with 130 and 400 values that need escaping, the first value 0..8
+	// characters longer than the rest (whatever is cut, padded or wrapped at a fixed width meets every
+	// alignment of an escape sequence), for in / containsAll / containsSome
+	for _, n := range []int{130, 400} {
+		for extra := 0; extra < 9; extra++ {
+			var vals []string
+			for k := 0; k < n; k++ {
+				val := fmt.Sprintf("c%03d", k)
+				if k == 0 {
+					val += strings.Repeat("x", extra)
+				}
+				vals = append(vals, "\""+val+"\"")
+			}
+			kind := []string{"in", "containsAll", "containsSome"}[(extra+n)%3]
+			texts = append(texts, fmt.Sprintf("#%%Validation Profile 1.0\nprofile: Long\nprefixes:\n  ex: http://example.org/\nviolation:\n  - v1\nvalidations:\n  v1:\n    message: m\n    targetClass: ex.C\n    propertyConstraints:\n      ex.p:\n        %s: [ %s ]\n", kind, strings.Join(vals, ", ")))
+			descs = append(descs, fmt.Sprintf("hand-written: %s with %d values, first value %d characters longer", kind, n, extra))
+		}
+	}
+	// many validations and long names: two-digit ordinals, names longer than 64 and 256 bytes
+	{
+		var names, defs []string
+		for k := 0; k < 40; k++ {
+			name := fmt.Sprintf("validation-%02d-%s", k, strings.Repeat("n", k*8))
+			names = append(names, "  - "+name)
+			defs = append(defs, fmt.Sprintf("  %s:\n    message: %s\n    targetClass: ex.C%d\n    propertyConstraints:\n      ex.p%d:\n        minCount: %d\n", name, strings.Repeat("m", 10+k*20), k%3, k, k))
+		}
+		texts = append(texts, "#%Validation Profile 1.0\nprofile: "+strings.Repeat("Long name ", 40)+"\nprefixes:\n  ex: http://example.org/\nviolation:\n"+strings.Join(names[:20], "\n")+"\nwarning:\n"+strings.Join(names[20:], "\n")+"\nvalidations:\n"+strings.Join(defs, ""))
+		descs = append(descs, "hand-written: 40 validations with long names and messages")
 	}
 	gens, err := drv.Generate(texts)
 	if err != nil {
